@@ -21,6 +21,10 @@ func moduleMapAll(srcMods []*Sexp) *ugo.ModuleMap {
 	mm.AddBuiltinModule("fmt", ufmt.Module)
 	mm.AddBuiltinModule("json", ujson.Module)
 	mm.AddBuiltinModule("emod", emodAttrs())
+	// Go modules of a host Importable whose value is not a map
+	mm.Add("cbytes", objImporter{ugo.Bytes{1, 2, 3}})
+	mm.Add("carr", objImporter{ugo.Array{ugo.Int(1), ugo.Array{ugo.Int(2)}}})
+	mm.Add("csm", objImporter{&ugo.SyncMap{Value: ugo.Map{"k": ugo.Int(1), "inner": ugo.Map{}}}})
 	for i, a := range srcMods {
 		mm.AddSourceModule(fmt.Sprintf("m%d", i+1), atomBytes(a))
 	}
